@@ -5,9 +5,9 @@ WT="$1"; P="$2"; D="$3"; NAME="$4"; PROP="$5"
 cd "$WT" || exit 9
 git checkout -q -- . ; git clean -fdq magpylib
 mkdir -p .seedtmp && cp "$D" .seedtmp/demo.py
-/venv/bin/python .seedtmp/demo.py >/dev/null 2>&1; d0=$?
+PYTHONPATH="$WT" /venv/bin/python .seedtmp/demo.py >/dev/null 2>&1; d0=$?
 git apply "$P" || { echo "patch does not apply"; exit 8; }
-/venv/bin/python .seedtmp/demo.py >/dev/null 2>&1; d1=$?
+PYTHONPATH="$WT" /venv/bin/python .seedtmp/demo.py >/dev/null 2>&1; d1=$?
 suite=$(/venv/bin/python -m pytest -q -p no:cacheprovider -n 8 2>&1 | tail -1)
 git checkout -q -- . ; git clean -fdq magpylib
 echo "$NAME: demo_without=$d0 demo_with=$d1 suite='$suite'"
